@@ -75,7 +75,7 @@ package dns
 //@ spec bmll1(t int, lw int, ll int) int = bmnw(t, lw, ll) ? 0 : ll
 //@ spec bmskip(t int, lw int, ll int) bool = bmlw(t) < lw || bmln(t) < bmll1(t, lw, ll)
 //@ spec bml(b seq, k int, lw int, ll int, l int) int = k >= len(b) ? l + ll + 2 : bml(b, k + 1, (bmskip(b[k], lw, ll) ? lw : bmlw(b[k])), (bmskip(b[k], lw, ll) ? bmll1(b[k], lw, ll) : bmln(b[k])), (bmnw(b[k], lw, ll) ? l + ll + 2 : l)) decreases len(b) - k
-//@ func typeBitMapLen [C08 C16]
+//@ func typeBitMapLen [C08 C16 C09]
 //@   ensures nonneg: ret0 >= 0
 //@   ensures fold: ret0 == bml(bitmap, 0, 0, 0, 0)
 //@   assert at "if window > lastwindow && lastlength != 0" wl: window == bmlw(t) && length == bmln(t)
